@@ -2,7 +2,7 @@
 from __future__ import annotations
 
 from ..common import all_events, apaths, cell_range_fn, class_of_root, conds_at, all_conds, nshow, outer_field, own_methods, paths, typed_fields
-from ..expr import SELF, root_of, show, walk
+from ..expr import SELF, root_of, show, strip_epochs, walk
 from ..intervals import Intervals, TYPE_RANGE, fmt_iv, within
 from ..model import AnalysisError
 
@@ -34,6 +34,7 @@ def check(prog, rep, tier):
     rep.extra["explanation"] = EXPL
     rep.rule("C16.cell-store-bounded", "every element store into a typed counter array stays inside the typecode range", floor=5)
     rep.rule("C16.total-bounded", "the element total left by a mutator lies in the 64-bit range of its footer slot", floor=6)
+    rep.rule("C16.saturation-limit", "a cell or the element total is pinned only at a limit of its storage (typecode range / footer slot range)", floor=4)
     rep.rule("C16.pinned-not-decremented", "a counting-Bloom cell is decremented only where its interval excludes the limit", floor=1)
     rep.assume("num_els >= 1 (the property's quantifier: amounts 1 .. beyond 2^64)")
     rep.assume("class invariant at entry: every cell is inside its typecode range, every total inside its footer slot range")
@@ -118,6 +119,32 @@ def check(prog, rep, tier):
                 else:
                     rep.bad(rid, f"{ctx}.{f.src_name}", f"{nshow(e.cont)}[*] = {nshow(e.value)}",
                             f"store into counter cell is not bounded: {why}", e.where())
+            # --- a counter is pinned at the END of its range, nowhere else: every large constant a mutator stores into a cell or into
+            # the total is one of the two limits of that storage (a clamp at 2**31-1 for the 64-bit total, or at limit-1, "saturates"
+            # at a value the documented format does not call for)
+            BIG = 2**31 - 2
+            for p in ps:
+                for e in p.events:
+                    lim = None
+                    if e.kind == "setelem" and outer_field(e.cont) in counter_fields:
+                        cn_ = class_of_root(prog, ctx, e.cont)
+                        if cn_ is not None and prog.cls(cn_).is_subclass_of(base):
+                            lim = crange(e.cont)
+                    elif e.kind == "setfield" and e.base == SELF and e.name == tot_field:
+                        lim = tot_slot
+                    if lim is None:
+                        continue
+                    big = [n[1] for n in walk(strip_epochs(e.value)) if n[0] == "c" and isinstance(n[1], int) and not isinstance(n[1], bool) and abs(n[1]) >= BIG]
+                    k = ("sat", f.qualname, id(e.node))
+                    off = [c_ for c_ in big if c_ not in lim]
+                    if off and k not in seen_sites:
+                        seen_sites[k] = False
+                        what_ = "the element total" if e.kind == "setfield" else f"a cell of {outer_field(e.cont)}"
+                        rep.bad("C16.saturation-limit", f"{ctx}.{f.src_name}", f"{what_} pinned at {off[0]}",
+                                f"{what_} is clamped / set to {off[0]}, which is not a limit of its storage {fmt_iv(lim)}: the counter saturates at a value of its own", e.where())
+                    elif big and k not in seen_sites:
+                        seen_sites[k] = True
+                        rep.ok("C16.saturation-limit", f"{ctx}.{f.src_name}: pinned at {sorted(set(big))}")
             # --- totals at normal exits
             if f.src_name in LOADERS and f.src_name != "clear":
                 continue
@@ -162,6 +189,8 @@ from ..selftest import Mutant, del_stmt, insert_stmt, replace_expr, replace_stmt
 FILES = ["blooms/countingbloom.py", "countminsketch/countminsketch.py"]
 _CB, _CM = "blooms/countingbloom.py", "countminsketch/countminsketch.py"
 MUTANTS = [
+    Mutant("count-min remove: total pinned one above the lower limit", _CM, replace_stmt("CountMinSketch", "remove_alt", "self.__elements_added = INT64_T_MIN", "self.__elements_added = INT64_T_MIN + 1"), rule="C16.saturation-limit"),
+    Mutant("count-min add: cell pinned at 2**31 - 2", _CM, replace_stmt("CountMinSketch", "add_alt", "self._bins[idx] = INT32_T_MAX", "self._bins[idx] = INT32_T_MAX - 1"), rule="C16."),
     Mutant("D3 re-introduced: clamp test on a snapshot taken before the loop", _CB,
            seq(insert_stmt("CountingBloomFilter", "add_alt", "snap = [self._bloom[k] + num_els for k in indices]", before="for i, k in"),
                replace_expr("CountingBloomFilter", "add_alt", "v > UINT32_T_MAX", "snap[i] > UINT32_T_MAX")), rule="C16.cell"),
